@@ -448,7 +448,12 @@ def run_component(sc, problem, algo, env):
             elif op == 'sample':
                 out.append(canon(d.sample()))
             elif op == 'marginalize':
-                out.append(sorted(([canon(k), float(v)] for k, v in d.marginalize(lambda e: e[1]).items()), key=lambda x: str(x[0])))
+                got = sorted(([canon(k), float(v)] for k, v in d.marginalize(lambda e: e[1]).items()), key=lambda x: str(x[0]))
+                out.append(got)
+                # same seed, same derivation, from a parent that has not been used yet
+                fresh = ImplicitDistribution(lambda rng: (rng.random() < pr, rng.randint(0, 2)), n_samples=p['n'], _seed=seed)
+                want = sorted(([canon(k), float(v)] for k, v in fresh.marginalize(lambda e: e[1]).items()), key=lambda x: str(x[0]))
+                pairs.append(["implicit/marginalize: derived from a parent that was used before vs from an equally seeded fresh parent", got, want])
             elif op == 'condition':
                 out.append(canon(d.condition(lambda e: e[1] != 1).sample()))
             elif op in ('ext', 'ext_condition', 'ext_marginalize'):
